@@ -9,6 +9,7 @@
 #include "refmodel.hh"
 #include "common.hh"
 #include <sys/wait.h>
+#include <signal.h>
 
 namespace vu {
 using namespace VATA;
@@ -152,10 +153,14 @@ inline std::string vataPath()
 // runs `vata <args>`, returns its standard output (stderr appended); rc = exit status
 inline std::string runVata(const std::string& args, int& rc)
 {
-	std::string cmd = vataPath() + " " + args + " 2>&1"; std::string out; char buf[4096];
+	// the child gets the CPU budget of a case: this process sleeps in read() meanwhile, so its own
+	// CPU-time watchdog would never fire on a child that does not terminate
+	std::string cmd = "ulimit -t " + std::to_string(vh::Run::caseTimeoutSec()) + "; exec " + vataPath() + " " + args + " 2>&1"; std::string out; char buf[4096];
 	FILE* f = popen(cmd.c_str(), "r"); if (!f) { rc = -1; return ""; }
 	size_t n; while ((n = fread(buf, 1, sizeof buf, f)) > 0) out.append(buf, n);
 	int st = pclose(f); rc = WIFEXITED(st) ? WEXITSTATUS(st) : 128 + WTERMSIG(st);
+	// budget exhausted: the same outcome as an in-process call that exhausts it (status TIMEOUT, exit 3)
+	if (WIFSIGNALED(st) && (WTERMSIG(st) == SIGXCPU || WTERMSIG(st) == SIGKILL)) raise(SIGPROF);
 	return out;
 }
 inline void writeFile(const std::string& path, const std::string& text) { FILE* f = fopen(path.c_str(), "w"); if (f) { fwrite(text.data(), 1, text.size(), f); fclose(f); } }
